@@ -20,6 +20,21 @@ pub struct HLine {
     pub no_newline_after: bool,
 }
 
+/// A merge-conflict region inside a hunk of a two-parent combined diff (the working-tree file
+/// still contains the conflict markers): `++<<<<<<< ours`, our lines, optionally
+/// `++||||||| base` and the ancestor's lines, `++=======`, their lines, `++>>>>>>> theirs`.
+#[derive(Clone, Debug, PartialEq, Eq)]
+pub struct Conflict {
+    /// the region stands in front of hunk line `at` (== lines.len(): after the last line)
+    pub at: usize,
+    pub ours_name: String,
+    pub theirs_name: String,
+    pub base_name: Option<String>,
+    pub ours: Vec<HLine>,
+    pub base: Vec<HLine>,
+    pub theirs: Vec<HLine>,
+}
+
 #[derive(Clone, Debug, PartialEq, Eq)]
 pub struct Hunk {
     pub old_start: usize,
@@ -28,6 +43,7 @@ pub struct Hunk {
     pub fragment: String,
     /// raw header text as rendered
     pub header: String,
+    pub conflict: Option<Conflict>,
 }
 
 #[derive(Clone, Copy, Debug, PartialEq, Eq, Hash)]
@@ -147,6 +163,8 @@ pub enum Role {
     Binary { sec: usize },
     HunkHeader { sec: usize, hunk: usize },
     Hunk { sec: usize, hunk: usize, idx: usize, kind: LK },
+    /// line of a merge-conflict region: part 0 = marker line, 1 = ours, 2 = base, 3 = theirs
+    Conflict { sec: usize, hunk: usize, part: u8, idx: usize },
     NoNewline { sec: usize, hunk: usize },
 }
 
@@ -171,6 +189,8 @@ pub struct GenOpts {
     pub huge_numbers: bool,
     /// every kind allowed? (else only kinds with hunks that are two-way)
     pub two_way_only: bool,
+    /// merge-conflict regions inside two-parent combined diffs
+    pub allow_conflict: bool,
 }
 
 impl GenOpts {
@@ -188,6 +208,7 @@ impl GenOpts {
             allow_free: false,
             huge_numbers: true,
             two_way_only: false,
+            allow_conflict: false,
         }
     }
 }
@@ -298,7 +319,7 @@ pub fn finish_hunk(old_start: usize, new_start: usize, lines: Vec<HLine>, fragme
         header.push(' ');
         header.push_str(&fragment);
     }
-    Hunk { old_start, new_start, lines, fragment, header }
+    Hunk { old_start, new_start, lines, fragment, header, conflict: None }
 }
 
 fn gen_hunks(t: &mut Tape, o: &GenOpts, only: Option<LK>, parents: usize) -> Vec<Hunk> {
@@ -320,7 +341,26 @@ fn gen_hunks(t: &mut Tape, o: &GenOpts, only: Option<LK>, parents: usize) -> Vec
         };
         let frag = gen_fragment(t, &o.text);
         let omit_ones = t.chance(3, 4);
-        let h = finish_hunk(os, ns, lines, frag, omit_ones, parents);
+        let mut h = finish_hunk(os, ns, lines, frag, omit_ones, parents);
+        if o.allow_conflict && parents == 2 && t.chance(1, 2) {
+            let oo = TextOpts { allow_markerlike: false, ..o.text };
+            let mut side = |t: &mut Tape, n: usize| -> Vec<HLine> {
+                (0..n)
+                    .map(|_| HLine { kind: LK::Plus, prefix: t.ps(&["++", " +", "+ "]).to_string(), text: text::content(t, &oo), no_newline_after: false })
+                    .collect()
+            };
+            let (no, nb, nt) = (t.below(4), t.below(3), t.below(4));
+            let with_base = t.chance(1, 3);
+            h.conflict = Some(Conflict {
+                at: t.below(h.lines.len() + 1),
+                ours_name: t.ps(&["HEAD", "ours", "Updated upstream", "a1b2c3d (some subject)"]).to_string(),
+                theirs_name: t.ps(&["other", "feature/x", "Stashed changes", "9f8e7d6 (subject two)"]).to_string(),
+                base_name: if with_base { Some(t.ps(&["base", "merged common ancestors", "1234567"]).to_string()) } else { None },
+                ours: side(t, no),
+                base: if with_base { side(t, nb) } else { Vec::new() },
+                theirs: side(t, nt),
+            });
+        }
         old += h.lines.len() + t.range(1, 40);
         new += h.lines.len() + t.range(1, 40);
         hunks.push(h);
@@ -622,11 +662,39 @@ pub fn render_section(sec: &Section, si: usize, out: &mut Vec<InLine>) {
     }
     for (hi, h) in sec.hunks.iter().enumerate() {
         push(out, h.header.clone(), Role::HunkHeader { sec: si, hunk: hi });
+        let region = |out: &mut Vec<InLine>, c: &Conflict| {
+            let mut k = 0;
+            let mut marker = |out: &mut Vec<InLine>, text: String| {
+                push(out, text, Role::Conflict { sec: si, hunk: hi, part: 0, idx: k });
+                k += 1;
+            };
+            marker(out, format!("++<<<<<<< {}", c.ours_name));
+            for (i, l) in c.ours.iter().enumerate() {
+                push(out, format!("{}{}", l.prefix, l.text), Role::Conflict { sec: si, hunk: hi, part: 1, idx: i });
+            }
+            if let Some(b) = &c.base_name {
+                marker(out, format!("++||||||| {}", b));
+                for (i, l) in c.base.iter().enumerate() {
+                    push(out, format!("{}{}", l.prefix, l.text), Role::Conflict { sec: si, hunk: hi, part: 2, idx: i });
+                }
+            }
+            marker(out, "++=======".to_string());
+            for (i, l) in c.theirs.iter().enumerate() {
+                push(out, format!("{}{}", l.prefix, l.text), Role::Conflict { sec: si, hunk: hi, part: 3, idx: i });
+            }
+            marker(out, format!("++>>>>>>> {}", c.theirs_name));
+        };
         for (li, l) in h.lines.iter().enumerate() {
+            if let Some(c) = h.conflict.as_ref().filter(|c| c.at == li) {
+                region(out, c);
+            }
             push(out, format!("{}{}", l.prefix, l.text), Role::Hunk { sec: si, hunk: hi, idx: li, kind: l.kind });
             if l.no_newline_after {
                 push(out, "\\ No newline at end of file".to_string(), Role::NoNewline { sec: si, hunk: hi });
             }
+        }
+        if let Some(c) = h.conflict.as_ref().filter(|c| c.at >= h.lines.len()) {
+            region(out, c);
         }
     }
 }
